@@ -24,8 +24,12 @@ BAD_ADD = [("m", "s"), ("m", "m^2"), ("J", "W"), ("k:g", "m"), ("Hz", "s"), ("Oh
 MUL_PAIRS = [("m", "s"), ("k:m", "m"), ("m", "m^-1"), ("k:m", "c:m^-1"), ("k:g", "g^-1"), ("N", "m"), ("J", "s^-1"), ("m^2", "m"),
              ("m^1/2", "m^1/2"), ("k:m h^-1", "h"), ("m s^-1", "s m^-1"), ("k:m", "k:m"), ("rad", "rad"), ("%", "m"), ("m", "k:m^-1"),
              ("g c:m^-3", "c:m^3"), ("eV", "eV^-1"), ("J", "erg^-1")]
+# dimensions cancel while a dimensionless table unit stays: only the factors of the dropped units are folded in
+KEPT_PAIRS = [("% m", "k:m^-1"), ("ppth c:m", "m^-1"), ("rad s", "min^-1"), ("% k:g", "g^-1")]
 if TIER != "thorough":
-    ADD_PAIRS, MUL_PAIRS = ADD_PAIRS[:10], MUL_PAIRS[:12]
+    ADD_PAIRS, MUL_PAIRS = ADD_PAIRS[:10], MUL_PAIRS[:12] + KEPT_PAIRS[:2]
+else:
+    MUL_PAIRS = MUL_PAIRS + KEPT_PAIRS
 
 
 def two(bd, ua, ub, errs=False):
